@@ -97,13 +97,26 @@ fn repair(t: &mut GTree, vocab: &Vocab, scope: &mut Vec<(usize, usize)>, undecla
 }
 
 pub fn gen_params(rng: &mut Rng, elem_names: &[usize]) -> Params {
+    // the lists are the caller's, in any order and possibly with repetitions: shuffle, so that
+    // nothing can rely on them being sorted by id
     let subset = |rng: &mut Rng| -> Vec<usize> {
-        match rng.below(4) {
+        let mut v: Vec<usize> = match rng.below(4) {
             0 => vec![],
             1 => vec![*rng.pick(elem_names)],
             2 => elem_names.iter().copied().filter(|_| rng.chance(1, 2)).collect(),
             _ => elem_names.to_vec(),
+        };
+        if rng.chance(3, 4) {
+            for i in (1..v.len()).rev() {
+                let j = rng.below(i + 1);
+                v.swap(i, j);
+            }
         }
+        if !v.is_empty() && rng.chance(1, 8) {
+            let x = *rng.pick(&v);
+            v.push(x);
+        }
+        v
     };
     let cdata = if rng.chance(1, 2) { subset(rng) } else { vec![] };
     let indent = if rng.chance(1, 2) { Some(if rng.chance(1, 2) { subset(rng) } else { vec![] }) } else { None };
